@@ -439,8 +439,9 @@ Section Semantics.
 
   (* widening of a Python value to a declared type at least as wide (bool <= int <= float <= double):
      what the output column holds.  Undefined when the type is narrower. *)
-  Definition ty_rank (t : ctype) : option nat :=
-    match t with TBool => Some 0%nat | TInt => Some 1%nat | TFloat => Some 2%nat | TDouble => Some 3%nat | TOther _ => None end.
+  Definition ty_rank (t : ctype) : option nat :=      (* by type name, as the translator compares types *)
+    match ctype_of_name (ctype_name t) with
+    | TBool => Some 0%nat | TInt => Some 1%nat | TFloat => Some 2%nat | TDouble => Some 3%nat | TOther _ => None end.
   Definition ty_le (a b : ctype) : bool :=
     match ty_rank a, ty_rank b with Some x, Some y => (x <=? y)%nat | _, _ => false end.
   Definition widen_to (t : ctype) (v : val) : option val :=
